@@ -3,7 +3,8 @@ R1 on the data-dependence slice from the model output to the loss every operator
 R2 the recurrent prev_hedge input is the stored model output itself; R3 in-place stores on the slice target fresh tensors;
 R4 losses are computed with gradients enabled by default, prices without, and everything from simulate to the criterion runs inside the
 caller's grad-mode region; R5 the functionals models are built from (clamps, Whalley-Wilmott width, SVI, Black-Scholes closed forms) do not
-break the graph between any tensor argument and their result."""
+break the graph between any tensor argument and their result.
+Third round: R1 also: the loss evaluates the caller's module, not a deep copy of it."""
 from .. import world as W
 from ..alias import root
 from ..interp import Obj, Unsupported
